@@ -5,6 +5,7 @@
 From Coq Require Import Sorted.
 From V Require Import lib.Common lib.Layout gen.GridArith model.PairTables model.EamTables model.EamBuilder
                       proof.LayoutLemmas proof.C03.
+From V Require Import model.NumFormat proof.NumFormatProofs.
 Local Open Scope Z_scope.
 
 (* element list of a potable EAM model: [EAM-Embed] order, then zero-filled species; each element once *)
@@ -80,6 +81,20 @@ Theorem c03_metadata_precedence : forall (V : Type) (s b d : V),
   metadata (Some s) (Some b) (Some d) = Ok s /\ metadata (Some s) None None = Ok s /\
   metadata None (Some b) (Some d) = Ok b /\ metadata None None (Some d) = Ok d /\ @metadata V None None None = CfgErr.
 Proof. intros. repeat split. Qed.
+
+(* what the printed cells mean.  Function values are printed with "% 20.16e" (17 significant digits: enough to identify the double); the text of a cell reads back as a mantissa
+   of 17 digits and a decimal exponent: for a non-zero value the first digit is not zero and mantissa * 10^(exponent - 16) is the binary
+   floating-point value (-1)^neg * m * 2^e the writer held, rounded at the last printed digit, ties to even (a mantissa that rounds up
+   to 10^17 is printed as 1.0...0 with the next exponent) *)
+Theorem c03_cell_text : forall neg m e t, (0 <= m)%Z -> fmt_float F_s2016e neg m e = Some t ->
+  read_number t = Some (let '(M, x) := sci_parts 16 m e in mkp neg M 16 x).
+Proof. intros neg m e t Hm H. inversion H. apply (fmt_reads true 15 true 20 neg m e Hm). Qed.
+Theorem c03_cell_value : forall m e, (0 < m)%Z -> let '(n, q) := frac m e in let '(M, x) := sci_parts 16 m e in
+  (10 ^ 16 <= M < 10 ^ (16 + 1))%Z /\
+  exists s M0, ((M, x) = (M0, 16 - s)%Z \/ (M0 = 10 ^ (16 + 1) /\ M = 10 ^ 16 /\ x = 16 - s + 1)%Z) /\
+    (Z.abs (2 * M0 * (q * 10 ^ Z.max 0 (- s)) - 2 * (n * 10 ^ Z.max 0 s)) <= q * 10 ^ Z.max 0 (- s))%Z.
+Proof. exact (sci_parts_spec 16). Qed.
+Print Assumptions c03_cell_value.
 
 Example c03_example :
   builder_order [2; 0; 2] [1; 0; 3] = [2; 0; 1; 3] /\
